@@ -319,6 +319,101 @@ func runBattery(s *lspServer, uri, text string) (*battery, string) {
 	return b, ""
 }
 
+// midBattery: between two notifications, symbols plus hover / definition at every position where a
+// fresh analysis of the document's current text answers something, and at the position before it.
+func midBattery(s *lspServer, model map[string]string, freshFor func(uri, text string) (*battery, string)) (string, string) {
+	var us []string
+	for u := range model {
+		us = append(us, u)
+	}
+	sort.Strings(us)
+	for _, uri := range us {
+		text := model[uri]
+		exp, e := freshFor(uri, text)
+		if e != "" {
+			return e, "C19.panic:fresh"
+		}
+		res, _, p := s.call("textDocument/documentSymbol", map[string]any{"textDocument": map[string]any{"uri": uri}})
+		if p != "" {
+			return "documentSymbol panicked: " + p, "C19.panic:query"
+		}
+		if canonSymbols(res) != exp.symbols {
+			return "documentSymbol of " + uri + " differs from a fresh analysis of its latest text", "C19.symbols"
+		}
+		ps := positionsOf(text)
+		for i, pos := range ps {
+			interesting := exp.hover[pos] != "null" || exp.defn[pos] != "null" || (i+1 < len(ps) && (exp.hover[ps[i+1]] != "null" || exp.defn[ps[i+1]] != "null")) || i == 0
+			if !interesting {
+				continue
+			}
+			r, _, p := s.call("textDocument/hover", posParams(uri, pos[0], pos[1]))
+			if p != "" {
+				return "hover panicked: " + p, "C19.panic:query"
+			}
+			if r != exp.hover[pos] {
+				return fmt.Sprintf("hover at %d:%d of %s differs from a fresh analysis of its latest text: got %s expected %s", pos[0], pos[1], uri, r, exp.hover[pos]), "C19.hover"
+			}
+			r, _, p = s.call("textDocument/definition", posParams(uri, pos[0], pos[1]))
+			if p != "" {
+				return "definition panicked: " + p, "C19.panic:query"
+			}
+			if r != exp.defn[pos] {
+				return fmt.Sprintf("definition at %d:%d of %s differs from a fresh analysis of its latest text: got %s expected %s", pos[0], pos[1], uri, r, exp.defn[pos]), "C19.definition"
+			}
+		}
+	}
+	return "", ""
+}
+
+// crossBattery: for every pair of opened documents (A, B) and every position both texts have, the
+// requests hover A, definition A, hover B, definition B, hover A, definition A in a row: an answer
+// remembered by position alone (or by anything less than document + position) shows here.
+func crossBattery(s *lspServer, uris []string, model map[string]string, freshFor func(uri, text string) (*battery, string)) (string, string, int) {
+	n := 0
+	for _, ua := range uris {
+		ta, okA := model[ua]
+		if !okA {
+			continue
+		}
+		for _, ub := range uris {
+			tb, okB := model[ub]
+			if !okB || ua == ub {
+				continue
+			}
+			ea, e1 := freshFor(ua, ta)
+			eb, e2 := freshFor(ub, tb)
+			if e1 != "" || e2 != "" {
+				return e1 + e2, "C19.panic:fresh", n
+			}
+			for _, pos := range positionsOf(ta) {
+				if _, both := eb.hover[pos]; !both {
+					continue
+				}
+				seq := []struct {
+					uri    string
+					method string
+					want   string
+				}{
+					{ua, "textDocument/hover", ea.hover[pos]}, {ua, "textDocument/definition", ea.defn[pos]},
+					{ub, "textDocument/hover", eb.hover[pos]}, {ub, "textDocument/definition", eb.defn[pos]},
+					{ua, "textDocument/hover", ea.hover[pos]}, {ua, "textDocument/definition", ea.defn[pos]},
+				}
+				for _, q := range seq {
+					r, _, p := s.call(q.method, posParams(q.uri, pos[0], pos[1]))
+					n++
+					if p != "" {
+						return q.method + " panicked: " + p, "C19.panic:query", n
+					}
+					if r != q.want {
+						return fmt.Sprintf("%s at %d:%d of %s, asked right after the same position of another document, differs from a fresh analysis of its latest text: got %s expected %s", q.method, pos[0], pos[1], q.uri, r, q.want), "C19.cross-document", n
+					}
+				}
+			}
+		}
+	}
+	return "", "", n
+}
+
 func runC19(w *mc.Worker) {
 	nURI, nText, full, depth := 2, 4, 3, 5
 	if w.Tier == "thorough" {
@@ -373,7 +468,8 @@ func runC19(w *mc.Worker) {
 		model := map[string]string{}
 		var desc []string
 		var lastOut, lastURI string
-		for _, oi := range path {
+		midBad, midClause := "", ""
+		for step, oi := range path {
 			op := ops[oi]
 			uri, text := uris[op.uri], texts[op.text]
 			var out, p string
@@ -411,6 +507,14 @@ func runC19(w *mc.Worker) {
 			}
 			model[uri] = text
 			lastOut, lastURI = out, uri
+			// queries BETWEEN notifications: an answer computed now must not survive the next change
+			// (the full battery at the end of the history would see it)
+			if step < len(path)-1 && midBad == "" {
+				midBad, midClause = midBattery(s, model, freshFor)
+				if midBad != "" {
+					midBad = fmt.Sprintf("after step %d: %s", step+1, midBad)
+				}
+			}
 		}
 		var keys []string
 		for u, t := range model {
@@ -418,15 +522,15 @@ func runC19(w *mc.Worker) {
 		}
 		sort.Strings(keys)
 		stateKey = strings.Join(keys, ",")
-		bad := ""
-		clause := ""
+		bad := midBad
+		clause := midClause
 		// conformance: the server's own document map equals the model state
 		impl, exported := s.st.VerifDocuments()
 		if !exported {
 			w.Count("document-store-not-exportable", 1)
 			impl = model // the conformance clause cannot be evaluated on this tree; the behavioural clauses below still are
 		}
-		if len(impl) != len(model) {
+		if len(impl) != len(model) && bad == "" {
 			bad, clause = fmt.Sprintf("the server holds %d documents, the history opened %d", len(impl), len(model)), "C19.store"
 		}
 		for u, t := range model {
@@ -493,6 +597,12 @@ func runC19(w *mc.Worker) {
 						bad, clause = fmt.Sprintf("definition at %d:%d of %s differs from a fresh analysis of its latest text: got %s expected %s", pos[0], pos[1], uri, got.defn[pos], exp.defn[pos]), "C19.definition"
 					}
 				}
+			}
+			// the same position asked of one document, then the other, then the first again
+			if bad == "" && len(model) > 1 {
+				var n int
+				bad, clause, n = crossBattery(s, uris[:nURI], model, freshFor)
+				queries += n
 			}
 			r, _, _ := s.call("textDocument/hover", posParams(neverOpened, 0, 0))
 			queries++
@@ -579,6 +689,50 @@ func runC19(w *mc.Worker) {
 		w.Count("bfs-states", states)
 		w.Count("bfs-transitions", transitions)
 	})
+
+	// (a3) near-identical texts: a change that only adds or removes blanks at either end, or that
+	// replaces one character, must be analysed like any other (a server that keeps the old analysis
+	// because "nothing changed" answers from a stale version)
+	{
+		b0 := "send [USD 1] (source = @a destination = @b) // done"
+		b1 := "vars { account $s }\nsend [USD 1] (\n  source = $s"
+		b2 := "vars { account $s }\nsend [USD 1] (source = $s destination = @b)"
+		near := []string{b0, b0 + "\n", b0 + " ", b0 + "\n\n", b1, b1 + "\n", b1 + " ", b1 + "\n  ", b2, b2 + "\n", " " + b2, b2 + "\t",
+			strings.ReplaceAll(b2, "$s", "$t"), strings.Replace(b2, "= $s", "= $t", 1), "\n" + b2}
+		name3 := fmt.Sprintf("near-identical-texts-H%d", full)
+		w.Stage(name3, fmt.Sprintf("all histories of length <= %d on one document over %d texts that differ from one another only by blanks / line ends at either end or by one character, with queries between the notifications and the full battery at the end", full, len(near)), func() {
+			saveOps, saveTexts, saveN := ops, texts, nText
+			defer func() { ops, texts, nText = saveOps, saveTexts, saveN }()
+			texts, nText = near, len(near)
+			ops = nil
+			for t := range near {
+				ops = append(ops, c19Op{0, t, false, false, false})
+			}
+			space := name3 + "/hist"
+			if path, ok := w.ReplayPath(space); ok {
+				checkHistory(space, path)
+				return
+			}
+			if w.IsReplay() {
+				return
+			}
+			var rec func(path []int)
+			rec = func(path []int) {
+				if len(path) > 0 && w.Mine(fmt.Sprint(space, path)) {
+					w.Owned()
+					checkHistory(space, path)
+					w.Touch()
+				}
+				if len(path) == full || w.Expired() {
+					return
+				}
+				for oi := range ops {
+					rec(append(append([]int{}, path...), oi))
+				}
+			}
+			rec(nil)
+		})
+	}
 
 	// (b) navigation on generator scripts
 	weight := 2
